@@ -320,9 +320,48 @@ func (r *reconstructor) reconstructPacket(rv []reflect.Value) error {
 	return nil
 }
 
+// placeholderBuffer reports whether v, a value the JSON decoder stored in an
+// interface, is a placeholder object ({"_placeholder":true,"num":n}) and returns
+// the attachment it stands for.
+func (r *reconstructor) placeholderBuffer(v reflect.Value) (buf []byte, ok bool, err error) {
+	if v.Kind() == reflect.Interface {
+		v = v.Elem()
+	}
+	if v.Kind() != reflect.Map || v.Len() != 2 || v.Type().Key().Kind() != reflect.String || v.Type().Elem().Kind() != reflect.Interface {
+		return nil, false, nil
+	}
+	pholder := v.MapIndex(reflect.ValueOf("_placeholder").Convert(v.Type().Key()))
+	num := v.MapIndex(reflect.ValueOf("num").Convert(v.Type().Key()))
+	if !pholder.IsValid() || !num.IsValid() {
+		return nil, false, nil
+	}
+	pholder, num = pholder.Elem(), num.Elem()
+	if !pholder.IsValid() || pholder.Kind() != reflect.Bool || !pholder.Bool() || !num.IsValid() || num.Kind() != reflect.Float64 {
+		return nil, false, nil
+	}
+	if f := num.Float(); f < 0 || f >= float64(len(r.buffers)) {
+		return nil, true, errInvalidPlaceholderNumValue
+	}
+	n := int(num.Float()) + 1
+	if n < 1 || n >= len(r.buffers) {
+		return nil, true, errInvalidPlaceholderNumValue
+	}
+	return r.buffers[n], true, nil
+}
+
 func (r *reconstructor) reconstructValue(rv reflect.Value) error {
 	k := rv.Kind()
 	original := rv
+	if k == reflect.Ptr && rv.Elem().Kind() == reflect.Interface && rv.Elem().CanSet() {
+		// An argument decoded into `any`: the placeholder itself may be the value.
+		buf, ok, err := r.placeholderBuffer(rv.Elem())
+		if err != nil {
+			return err
+		} else if ok {
+			rv.Elem().Set(reflect.ValueOf(buf))
+			return nil
+		}
+	}
 	if k == reflect.Interface || k == reflect.Ptr {
 		rv = rv.Elem()
 		k = rv.Kind()
@@ -343,6 +382,16 @@ func (r *reconstructor) reconstructValue(rv reflect.Value) error {
 			sl := rv.Len()
 			for i := 0; i < sl; i++ {
 				el := rv.Index(i)
+				if sk == reflect.Interface && el.CanSet() {
+					// []any: an element may be a placeholder.
+					buf, ok, err := r.placeholderBuffer(el)
+					if err != nil {
+						return err
+					} else if ok {
+						el.Set(reflect.ValueOf(buf))
+						continue
+					}
+				}
 				err := r.reconstructValue(el)
 				if err != nil {
 					return err
@@ -539,6 +588,11 @@ func (r *reconstructor) reconstructMap(rv reflect.Value) error {
 						b[i] = buf[i]
 					}
 
+					if original.Kind() != reflect.Ptr {
+						// map[...]Binary: the element is the slice itself, not a pointer to it.
+						rv.SetMapIndex(mk, n)
+						return nil
+					}
 					x := reflect.New(mv.Type())
 					x.Elem().Set(n)
 					rv.SetMapIndex(mk, x)
@@ -550,6 +604,11 @@ func (r *reconstructor) reconstructMap(rv reflect.Value) error {
 					return err
 				}
 				continue
+			}
+			// Any other slice (e.g. a []any inside a map[string]any): walk its elements.
+			err := r.reconstructValue(mv)
+			if err != nil {
+				return err
 			}
 
 		default:
